@@ -12,7 +12,7 @@ RULE = ("Every program of the bounded family (all nestings to depth D of 13 cont
 def families(ctx):
     d = 2 if ctx.quick() else 3
     fams = [("c08-nest", progs.fam_c08(d)), ("c08-truth", progs.fam_truth()), ("c08-switch", progs.fam_switch()), ("c08-forin", progs.fam_forin()),
-            ("c08-rand", progs.rand_programs(ctx.seed, 400 if ctx.quick() else 6000))]
+            ("c08-rand", progs.rand_programs(ctx.seed, 400 if ctx.quick() else 6000)), ("c08-rand2", progs.rand2_programs(ctx.seed + 100, 400 if ctx.quick() else 6000))]
     return fams
 
 
